@@ -87,13 +87,28 @@ func c10Defaults(c *Ctx) {
 	// one-sided arrival / departure
 	st := m.t("stop_times.txt")
 	for r := range st.Rows {
-		switch c.Choose(fmt.Sprintf("stop_times[%d].times", r), 3) {
+		switch c.Choose(fmt.Sprintf("stop_times[%d].times", r), 7) {
 		case 1:
 			st.set(r, "departure_time", "")
 			applied = append(applied, fmt.Sprintf("stop_times[%d]:arrival-only", r))
 		case 2:
 			st.set(r, "arrival_time", "")
 			applied = append(applied, fmt.Sprintf("stop_times[%d]:departure-only", r))
+		case 3: // midnight is a time like any other
+			st.set(r, "arrival_time", "00:00:00")
+			st.set(r, "departure_time", "")
+			applied = append(applied, fmt.Sprintf("stop_times[%d]:arrival-only at 00:00:00", r))
+		case 4:
+			st.set(r, "arrival_time", "")
+			st.set(r, "departure_time", "0:00:00")
+			applied = append(applied, fmt.Sprintf("stop_times[%d]:departure-only at 0:00:00", r))
+		case 5:
+			st.set(r, "arrival_time", "00:00:00")
+			applied = append(applied, fmt.Sprintf("stop_times[%d]:arrival at 00:00:00, departure later", r))
+		case 6:
+			st.set(r, "arrival_time", "00:00:00")
+			st.set(r, "departure_time", "00:00:00")
+			applied = append(applied, fmt.Sprintf("stop_times[%d]:both at 00:00:00", r))
 		}
 	}
 	switch c.Choose("stop_times.time_column_omitted", 3) {
@@ -184,7 +199,8 @@ func c10Inheritance(c *Ctx) {
 	pid, _ := st.get(pr, "stop_id")
 	st.set(c1r, "wheelchair_boarding", c1)
 	st.set(c1r, "parent_station", pid)
-	st.set(c1r, "location_type", "0")
+	c1Type := []string{"0", "2", "3", ""}[c.Free("child1.location_type", 4)] // platform, entrance, generic node, blank
+	st.set(c1r, "location_type", c1Type)
 	st.set(c2r, "wheelchair_boarding", c2)
 	st.set(c2r, "location_type", "")
 	if c2HasParent {
@@ -211,7 +227,7 @@ func c10Inheritance(c *Ctx) {
 	if colAbsent {
 		st.dropCol("wheelchair_boarding")
 	}
-	applied := []string{fmt.Sprintf("parent{type=%q wb=%q} child1.wb=%q child2.wb=%q child2Parent=%d colAbsent=%v parentFirst=%v childrenBlank=%v", parentType, parentWB, c1, c2, c2Parent, colAbsent, parentFirst, childrenBlank)}
+	applied := []string{fmt.Sprintf("parent{type=%q wb=%q} child1.wb=%q child2.wb=%q child2Parent=%d colAbsent=%v parentFirst=%v childrenBlank=%v child1Type=%q", parentType, parentWB, c1, c2, c2Parent, colAbsent, parentFirst, childrenBlank, c1Type)}
 	if inherit && parentType == "1" && (c1 == "" || c1 == "0") {
 		c.Witness("inheritance_applies")
 	}
@@ -222,7 +238,7 @@ func init() {
 	register(&Check{
 		ID:    "C10",
 		Level: "model_checking",
-		Rule: "base feed x 16 default-bearing optional columns x 6 spellings (as written / column omitted / blank everywhere / blank first row / blank last row / explicit default), each default-bearing column given each of its legal values in every row (000000 / FFFFFF colours, every enum digit), one-sided arrival or departure per stop_times row, either time column omitted, inheritance option; k deviations at a time (quick 2, thorough 4); plus the full inheritance product (option x parent type x parent value x two children's values x second child's parent {station, none, the first child (three levels)} x column absent x row order x children with every optional cell blank = 12 288); " +
+		Rule: "base feed x 16 default-bearing optional columns x 6 spellings (as written / column omitted / blank everywhere / blank first row / blank last row / explicit default), each default-bearing column given each of its legal values in every row (000000 / FFFFFF colours, every enum digit), one-sided arrival or departure per stop_times row (also exactly at 00:00:00), either time column omitted, inheritance option; k deviations at a time (quick 2, thorough 4); plus the full inheritance product (option x parent type x parent value x two children's values x first child's location type {0, 2, 3, blank} x second child's parent {station, none, the first child (three levels)} x column absent x row order x children with every optional cell blank = 49 152); " +
 			"non-trivial = distinct feeds with at least one non-explicit spelling; oracle = reference interpretation with the GTFS reference defaults",
 		Assumptions: []string{"defaults are those of the GTFS schedule reference: route_color FFFFFF, route_text_color 000000, pickup/drop_off 0, continuous_* 1, timepoint 1, transfer_type 0, exact_times 0, wheelchair/bikes 0, location_type 0"},
 		Scenarios: func(tier string) []*Scenario {
